@@ -108,6 +108,11 @@ def run_case(spec, ctx):
         if viols:
             return {'status': 'violation', 'mechanism': 'optimistic', 'features': f, 'sig': sig,
                     'nontrivial': True, 'detail': {'values': obs, 'witness': viols[:2]}}
+        cert = relaxation_certificate(spec, B, ref, val, tol, osgn)
+        if cert is not None:
+            return {'status': 'violation', 'mechanism': 'optimistic_relaxation_bound',
+                    'features': f, 'sig': sig, 'nontrivial': True,
+                    'detail': {'values': obs, 'certificate': cert}}
         ctx.count('optimistic_without_witness')
         return {'status': 'error', 'error': 'optimistic gap %.3g without witness'
                 % (osgn * (ref.value - val)), 'features': f}
@@ -136,6 +141,38 @@ def run_case(spec, ctx):
                 'features': f}
     return {'status': 'held', 'features': f, 'sig': sig, 'nontrivial': bool(nontrivial),
             'observed': obs}
+
+
+def relaxation_certificate(spec, B, ref, val, tol, osgn):
+    """RSOME's optimum beats the reference although its solution is robustly feasible as
+    returned (e.g. a rule that uses components it was not allowed to).  The witness is then the
+    finite relaxation itself: scenarios z_1..z_K, each re-verified to lie in its set, such that
+    no decision in the declared decision space (static x, rules with the declared masks) that
+    satisfies the requirements at those K scenarios reaches RSOME's value.  The bound is
+    re-derived here with a different LP algorithm than the one the reference used."""
+    from scipy.optimize import linprog
+    npts = 0
+    for k, pts in ref.pools.items():
+        prims = ref.pool_sets[k]
+        for z in pts:
+            if S.set_viol(prims, z) > 1e-7:
+                return None
+            npts += 1
+    M = ref.master
+    res = linprog(M['c'], A_ub=M['A'], b_ub=M['b'], bounds=M['bounds'], method='highs-ipm')
+    if res.status != 0:
+        return None
+    bound = osgn * float(res.fun)
+    if not osgn * (bound - val) > tol:
+        return None
+    # what the returned rule looks like next to its declaration
+    x, y0, Y = R.read_solution(spec, B)
+    undeclared = [bool(np.any(np.abs(Yi[np.array(r['mask']).reshape(Yi.shape) == 0]) > 1e-7))
+                  for r, Yi in zip(spec['rules'], Y)]
+    return {'scenarios': npts, 'cuts': int(M['A'].shape[0]),
+            'best_value_over_declared_decision_space_at_these_scenarios': bound,
+            'rsome_value': float(val), 'rule_uses_undeclared_components': undeclared,
+            'pool': [np.asarray(z).tolist() for pts in ref.pools.values() for z in pts][:12]}
 
 
 def witness_from_pools(spec, B, ref, val, sname):
